@@ -65,9 +65,14 @@ def build(which):
     if not os.path.exists(lock):
         shutil.copy(os.path.join(REPO, "Cargo.lock"), lock)
     cmd = ["cargo", "build", "--release", "--offline", "--target-dir", "target/" + which]
-    if which == "ark":
+    if which.startswith("ark"):
         cmd += ["--features", "ark"]
     env = dict(os.environ, CARGO_NET_OFFLINE="true")
+    if which.endswith("dbg"):
+        # the same optimised build with debug assertions ON (the crate has debug_assert!-only checks, and its own
+        # test suite runs with them): a change that only panics under debug assertions is still a change in behaviour
+        env["CARGO_PROFILE_RELEASE_DEBUG_ASSERTIONS"] = "true"
+        env["CARGO_PROFILE_RELEASE_OVERFLOW_CHECKS"] = "true"
     t0 = time.time()
     r = subprocess.run(cmd, cwd=HARNESS, capture_output=True, text=True, env=env)
     if r.returncode != 0:
